@@ -279,3 +279,6 @@ def run(ctx):
         ctx.stats.merge(st_)
     ctx.extra['grid'] = (f'{len(g)} directed cases: every trigger x side x (request | response) x {len(EDITS)} error/omission '
                          f'edits by the keyed rewriter, for two configurations (complete enumeration of that grid)')
+    if not ctx.quick:
+        import sys as _sys
+        common.hyp_fuzz_stage(ctx, _sys.modules[__name__], 'cases(False)')
